@@ -276,9 +276,20 @@ def c_case(case, res):
 
 # ---------------------------------------------------------------- running
 
+def crashed(case, reason):
+    return {'code': 99, 'acc': None, 'bad': None,
+            'fails': [{'clause': 'crash-or-hang', 'defect': 'worker', 'site': case.get('kind'), 'got': 'died',
+                       'detail': 'the implementation worker crashed or hung on this case: %s' % reason}]}
+
+
 def run_impl_cases(cases, chunk=300):
+    from concurrent.futures import ThreadPoolExecutor
     chunks = [cases[i:i + chunk] for i in range(0, len(cases), chunk)]
-    outs = core.run_impl_parallel('c09', [{'cases': ch} for ch in chunks])
+
+    def one(ch):
+        return core.run_cases_bisect('c09', ch, lambda cs: {'cases': cs}, crashed, timeout=120)
+    with ThreadPoolExecutor(max_workers=core.NCPU) as ex:
+        outs = list(ex.map(one, chunks))
     return [r for out in outs for r in out]
 
 
